@@ -314,7 +314,7 @@ class ConcatScenario(BaseScenario):
         return {"version": rng.choice([2.0, 2.1, 2.1]), "two_ws": rng.random() < 0.55, "n_groups": rng.choice([1, 1, 2]),
                 "gc": rng.choices(["none", "op", "io", "line"], [2, 4, 3, 1])[0], "gc_density": rng.choice([0.15, 0.4, 0.8]),
                 "h5repack": rng.choices(["absent", "ok", "fail"], [3, 2, 1])[0], "n_ops": rng.choice([6, 10, 16, 24, 36]),
-                "keep_prob": rng.choice([0.0, 0.3, 0.6]), "avoid_known": rng.random() < 0.9}
+                "keep_prob": rng.choice([0.0, 0.3, 0.6]), "avoid_known": rng.random() < 0.9, "peek": rng.choice(["always", "sparse"])}
 
     def simplify_config(self, cfg):
         out = []
@@ -578,11 +578,18 @@ class ConcatScenario(BaseScenario):
         try:
             if before is not None and not w.suspect and kind not in ("close_reopen", "reopen_same"):
                 after = w.raw_digest()
+                if self.prop == "C09":
+                    # C09's own question first: a broken tiling usually also shows as changed rows of untouched holes
+                    w.judge_rows(before, after, w.touched if outcome == "ok" else set(), f"{kind}:{outcome}", w.created_groups)
                 for h in after:
                     w.raw_rules(after[h][0], h, f"{kind}:after op", closed=False)
-                w.judge_rows(before, after, w.touched if outcome == "ok" else set(), f"{kind}:{outcome}", w.created_groups)
+                if self.prop != "C09":
+                    w.judge_rows(before, after, w.touched if outcome == "ok" else set(), f"{kind}:{outcome}", w.created_groups)
                 w._cache = after
-            if not w.suspect and kind in self.MUT:
+            # reading every hole's values after every operation fills the per-entity value caches and hides what only an
+            # uncached read (or the table view) would show: "sparse" runs look after about a third of the operations
+            if not w.suspect and kind in self.MUT and (w.cfg.get("peek", "always") == "always" or kind == "rename_data"
+                                                              or random.Random(H(op["sub"], "peek")).random() < 0.35):     # (rename_data: known-finding canary, judged where it happens)
                 w.check_all(f"{kind}:after op")
         except Violation as vio:
             if True:
